@@ -1,39 +1,47 @@
 ------------------------------ MODULE ChanAbs ------------------------------
-(* The abstract view of a channel used for validating long recorded traces (C10): the set  *)
-(* of announced values, what each receiver has announced, whether the channel is closed,   *)
-(* which receivers got nil.  Chan.tla (queue with capacity, rendezvous) refines it; the    *)
-(* sizes live in the variable cfg so that one TLC run can validate traces of many          *)
-(* topologies.                                                                              *)
+(* The abstract view of a channel used for validating long recorded traces (C10): how many *)
+(* values each sender has announced, which values have been received (by anybody), the     *)
+(* latest value each receiver has from each sender, whether the channel is closed, which   *)
+(* receivers got nil.  Chan.tla (queue with capacity, rendezvous) refines it; the sizes    *)
+(* live in the variable cfg so that one TLC run can validate traces of many topologies.    *)
+(* The state is kept incremental (no recomputation over histories): validating a trace of  *)
+(* 10^4 messages is 2 x 10^4 TLC states of size O(messages).                                *)
 EXTENDS Integers, Sequences, FiniteSets
 VARIABLES cfg,        \* [ns, nr, msgs]
-          announced, nextSend, received, closed, gotNil
-avars == <<cfg, announced, nextSend, received, closed, gotNil>>
+          nextSend,   \* nextSend[s]: index of the next value sender s announces (1..nextSend[s]-1 are announced)
+          got,        \* set of <<s, i>> received so far
+          lastFrom,   \* lastFrom[r][s]: index of the latest value receiver r has from sender s (0: none)
+          closed, gotNil
+avars == <<cfg, nextSend, got, lastFrom, closed, gotNil>>
 ASenders == 1..cfg.ns
 AReceivers == 1..cfg.nr
-AInit(c) == /\ cfg = c /\ announced = {} /\ nextSend = [s \in 1..c.ns |-> 1]
-            /\ received = [r \in 1..c.nr |-> <<>>] /\ closed = FALSE /\ gotNil = [r \in 1..c.nr |-> FALSE]
-AAllReceived == UNION {{received[r][k] : k \in 1..Len(received[r])} : r \in AReceivers}
+AInit(c) == /\ cfg = c /\ nextSend = [s \in 1..c.ns |-> 1] /\ got = {}
+            /\ lastFrom = [r \in 1..c.nr |-> [s \in 1..c.ns |-> 0]]
+            /\ closed = FALSE /\ gotNil = [r \in 1..c.nr |-> FALSE]
+Announced(s, i) == i >= 1 /\ i < nextSend[s]
+RECURSIVE SumTo(_, _)
+SumTo(f, n) == IF n = 0 THEN 0 ELSE f[n] + SumTo(f, n - 1)
+NAnnounced == SumTo([s \in ASenders |-> nextSend[s] - 1], cfg.ns)
 \* a sender announces exactly its next value, never after close
 ASend(s, i) == /\ s \in ASenders /\ ~closed /\ i = nextSend[s] /\ i <= cfg.msgs
-               /\ announced' = announced \cup {<<s, i>>} /\ nextSend' = [nextSend EXCEPT ![s] = @ + 1]
-               /\ UNCHANGED <<cfg, received, closed, gotNil>>
-LastFrom(r, s) == LET idx == {k \in 1..Len(received[r]) : received[r][k][1] = s} IN
-                  IF idx = {} THEN 0 ELSE received[r][CHOOSE k \in idx : \A j \in idx : j <= k][2]
+               /\ nextSend' = [nextSend EXCEPT ![s] = @ + 1]
+               /\ UNCHANGED <<cfg, got, lastFrom, closed, gotNil>>
 \* a receiver announces a value that was announced by its sender, that nobody has received yet,
 \* and that is later in its sender's order than anything this receiver already has from that sender
-ARecv(r, s, i) == /\ r \in AReceivers /\ <<s, i>> \in announced /\ <<s, i>> \notin AAllReceived
-                  /\ i > LastFrom(r, s) /\ ~gotNil[r]
-                  /\ received' = [received EXCEPT ![r] = Append(@, <<s, i>>)]
-                  /\ UNCHANGED <<cfg, announced, nextSend, closed, gotNil>>
+ARecv(r, s, i) == /\ r \in AReceivers /\ s \in ASenders /\ Announced(s, i) /\ <<s, i>> \notin got
+                  /\ i > lastFrom[r][s] /\ ~gotNil[r]
+                  /\ got' = got \cup {<<s, i>>}
+                  /\ lastFrom' = [lastFrom EXCEPT ![r][s] = i]
+                  /\ UNCHANGED <<cfg, nextSend, closed, gotNil>>
 AClose == /\ ~closed /\ \A s \in ASenders: nextSend[s] > cfg.msgs /\ closed' = TRUE
-          /\ UNCHANGED <<cfg, announced, nextSend, received, gotNil>>
+          /\ UNCHANGED <<cfg, nextSend, got, lastFrom, gotNil>>
 \* nil only from a closed channel; values taken by other receivers may still be unannounced (at most one each)
 ANil(r) == /\ r \in AReceivers /\ closed /\ ~gotNil[r]
-           /\ Cardinality(announced \ AAllReceived) <= Cardinality({q \in AReceivers : q # r /\ ~gotNil[q]})
+           /\ NAnnounced - Cardinality(got) <= Cardinality({q \in AReceivers : q # r /\ ~gotNil[q]})
            /\ gotNil' = [gotNil EXCEPT ![r] = TRUE]
-           /\ UNCHANGED <<cfg, announced, nextSend, received, closed>>
+           /\ UNCHANGED <<cfg, nextSend, got, lastFrom, closed>>
 ANext == \/ \E s \in ASenders, i \in 1..cfg.msgs: ASend(s, i)
          \/ \E r \in AReceivers, s \in ASenders, i \in 1..cfg.msgs: ARecv(r, s, i)
          \/ AClose \/ \E r \in AReceivers: ANil(r)
-ADone == (\A r \in AReceivers: gotNil[r]) /\ AAllReceived = {<<s, i>> : s \in ASenders, i \in 1..cfg.msgs}
+ADone == (\A r \in AReceivers: gotNil[r]) /\ Cardinality(got) = cfg.ns * cfg.msgs
 =============================================================================
